@@ -51,7 +51,7 @@ CHECKS = [
      "text": "TLC model-checks the write_all_vectored loop against every sink schedule (VectoredWrite.tla, mutant caught). The real writer is run over "
              "sinks that accept k bytes per call, one slice per call, random mixes with Interrupted, and Interrupted / Ok(0) / hard error at every call index: "
              "the stream must equal the all-accepting sink's, a failing sink call must surface as Err (never a panic), transient failures must leave a "
-             "valid file (Trace_Writer with err_io), and the recorded write_vectored call sequences are validated by TLC (Trace_Vectored). Thorough tier: the loop invariant is also discharged as an INDUCTIVE invariant by Apalache (any number of steps), with the off-by-one mutant refuted.",
+             "valid file (Trace_Writer with err_io), and the recorded write_vectored call sequences are validated by TLC (Trace_Vectored). ContainerWriterFaulty.tla is the writer's bookkeeping over a sink that fails cleanly or after a partial block at any flush (retry of the pending block, errors surface, nothing lost inside the writer): TLC checks it forward and refutes two mutated writers, and every scheduled-sink session of the real writer is replayed against it call by call with the hook state (Trace_WriterFaulty). Thorough tier: its invariant is checked as INDUCTIVE by TLC (every state of IndInit) and by Apalache (any number of calls), as is the vectored-write loop invariant, with the mutants refuted.",
      "note": TLC_NOTE,
      "technique": "TLA+ model of the vectored write loop checked by TLC + scheduled sinks under the real writer, call sequences and resulting files trace-validated by TLC"},
     {"property_id": "C04", "level": "model_checking", "design_ref": "DESIGN.md §6 C04",
@@ -74,7 +74,7 @@ CHECKS = [
      "text": "ContainerReaderAbs is written as a TLA+ trace specification (Trace_Reader.tla: prefix rule for truncation, must-report rule for the named "
              "corruptions, once-then-end-of-stream latch for unrecoverable errors using the reader state from hooks, sticky end of stream) whose rules are "
              "sanity-checked on every run; the real reader is run on one 3-block file per codec cut at EVERY offset, with every named corruption of every "
-             "block, single-byte corruption at every offset and an I/O error at every refill index, and each run is validated by TLC. ContainerReader.tla is the reader as the code structures it (three input kinds); TLC checks it against C17's rules on all small damaged files (4 blocks x 3 objects x 14 calls in the thorough tier) and refutes a mutant; every structured read is replayed against it with the hook states.",
+             "block, hostile declared counts and sizes, blocks assembled with push_serialized whose contents disagree with their count (every codec), single-byte corruption at every offset, random multi-byte corruptions and an I/O error of four kinds at every refill index (items with strings, unions, decimals and fixed), and each run is validated by TLC. ContainerReader.tla is the reader as the code structures it (three input kinds); TLC checks it against C17's rules on all small damaged files (4 blocks x 3 objects x 14 calls in the thorough tier) and refutes a mutant; every structured read is replayed against it with the hook states.",
      "note": TLC_NOTE,
      "technique": "abstract reader property as a TLA+ trace spec; exhaustive fault enumeration over real files (every offset / refill index), each run trace-validated by TLC"},
     {"property_id": "C06", "level": "model_checking", "design_ref": "DESIGN.md §6 C06",
